@@ -79,6 +79,16 @@ for d in sorted(glob.glob(os.path.join(ROOT, "seeded", "C*"))):
     def cl(x): return " ".join(str(x).replace("|", "/").split())[:260]
     seeds.append("| %s | %s | %s | %s |" % (sid, cl(meta.get("summary", "")), cl(meta.get("needs", "")), rep.replace("|", "/")))
 table = table + "\n" + "\n".join(seeds)
+# ---- third: genuine defects repaired (fix: commits) and open known findings
+kfall = json.load(open(os.path.join(ROOT, "known-findings.json"))) if os.path.exists(os.path.join(ROOT, "known-findings.json")) else {"fixed": [], "findings": []}
+sec = ["", "### Genuine defects of /repo found by the checks and repaired (`fix:` commits; recorded as `fixed:` entries, which suppress nothing)", ""]
+for f in kfall.get("fixed", []):
+    sec.append("* " + " ".join(f.split())[:420].replace("|", "/"))
+sec += ["", "### Open known findings (genuine, not repaired; each suppresses exactly its key, any other violation is still reported)", ""]
+for k in kfall.get("findings", []):
+    if k.get("status", "open") == "open":
+        sec.append("* **%s** `%s` — %s" % (k.get("property"), (k.get("key") or k.get("key_regex")), " ".join(str(k.get("what", "")).split())[:600].replace("|", "/")))
+table = table + "\n" + "\n".join(sec)
 dp = os.path.join(ROOT, "DESIGN.md")
 s = open(dp).read()
 b, e = "<!-- STATUS-BEGIN -->", "<!-- STATUS-END -->"
